@@ -54,7 +54,8 @@ def main():
         # demo: compile command from the first comment lines, else default
         demo = os.path.join(d, "demo.cpp")
         flags = "-std=c++20 -O1 -g -fsanitize=address,undefined -fno-sanitize-recover=all"
-        head = open(demo).read(2000)
+        head = open(demo).read(3000)
+        head = re.sub(r"\\\s*\n\s*//", " ", head)          # a compile command continued over several comment lines
         m = re.search(r"g\+\+\s+([^\n]*?)\s+-I\S+", head)
         if m:
             flags = m.group(1)
